@@ -2,6 +2,8 @@
 package streams
 
 import (
+	"io"
+	"testing/iotest"
 	"bufio"
 	"fmt"
 	"os"
@@ -219,14 +221,7 @@ func newHostRunner(c *sexp.S) (*hostRunner, error) {
 		h.log = append(h.log, "nr("+obs.Values(a)+")")
 		return nil, nil
 	})
-	recorder := func(name string) ysgo.YarnSpinnerCommand {
-		return func(a []*variable.Value) <-chan error {
-			h.log = append(h.log, "cmd:"+obs.Esc(name)+"("+obs.Values(a)+")")
-			ch := make(chan error, 1)
-			ch <- nil
-			return ch
-		}
-	}
+	recorder := h.recorder
 	dr.AddCommand("cmd", recorder("cmd"))
 	if cmds := c.Find("cmds"); cmds != nil {
 		for _, n := range cmds.Args() {
@@ -245,6 +240,16 @@ func newHostRunner(c *sexp.S) (*hostRunner, error) {
 		return h.ctl
 	})
 	return h, nil
+}
+
+// recorder is a handler that logs its invocation and completes at once
+func (h *hostRunner) recorder(name string) ysgo.YarnSpinnerCommand {
+	return func(a []*variable.Value) <-chan error {
+		h.log = append(h.log, "cmd:"+obs.Esc(name)+"("+obs.Values(a)+")")
+		ch := make(chan error, 1)
+		ch <- nil
+		return ch
+	}
 }
 
 // errors of the host come in every shape an error value can have: a pointer, a string, a struct
@@ -274,9 +279,46 @@ func newRunner(storer variable.Storer, seed string, readers []*strings.Reader) (
 	}()
 	rs := make([]ioReader, len(readers))
 	for i, r := range readers {
-		rs[i] = r
+		rs[i] = shapedReader(r, ReaderShape+i)
 	}
 	return ysgo.NewDialogueRunner(storer, seed, rs...)
+}
+
+// ReaderShape is set per case (from the case id) by the dispatcher: the io.Reader contract allows many delivery
+// patterns, and what a script means must not depend on which one the host's reader happens to have.
+var ReaderShape int
+
+// shapedReader delivers the same bytes as r in one of several contract-conforming ways.
+func shapedReader(r *strings.Reader, shape int) ioReader {
+	switch shape % 6 {
+	case 1:
+		return iotest.DataErrReader(r) // the last bytes arrive together with io.EOF
+	case 2:
+		return iotest.OneByteReader(r)
+	case 3:
+		return iotest.HalfReader(r)
+	case 4:
+		return iotest.DataErrReader(iotest.OneByteReader(r))
+	case 5:
+		return &chunkReader{r: r, n: 7} // short reads that split multi-byte characters, EOF with the last chunk
+	}
+	return r
+}
+
+type chunkReader struct {
+	r *strings.Reader
+	n int
+}
+
+func (c *chunkReader) Read(p []byte) (int, error) {
+	if len(p) > c.n {
+		p = p[:c.n]
+	}
+	n, err := c.r.Read(p)
+	if err == nil && c.r.Len() == 0 {
+		err = io.EOF
+	}
+	return n, err
 }
 
 func lineObs(l *ysgo.Line) string {
@@ -507,6 +549,30 @@ func Run(c *sexp.S, out *Out) {
 			}
 			setValue(r.storer, a[1].GoString(), decodeValue(a[2]))
 			out.Put("HSET%s", r.state())
+		case "hrev":
+			// the host replaces a string variable by its reversal: another value of exactly the same length
+			r := runners[a[0].Int()]
+			if r == nil {
+				out.Put("NORUNNER")
+				continue
+			}
+			if v, ok := r.storer.GetValue(a[1].GoString()); ok && v.String != nil {
+				rs := []rune(*v.String)
+				for i, k := 0, len(rs)-1; i < k; i, k = i+1, k-1 {
+					rs[i], rs[k] = rs[k], rs[i]
+				}
+				r.storer.SetStringValue(a[1].GoString(), string(rs))
+			}
+			out.Put("HSET%s", r.state())
+		case "addcmd":
+			// a command registered late, on this runner only, after the run has started
+			r := runners[a[0].Int()]
+			if r == nil {
+				out.Put("NORUNNER")
+				continue
+			}
+			r.dr.AddCommand(a[1].GoString(), r.recorder(a[1].GoString()))
+			out.Put("ADDCMD")
 		case "complete":
 			r := runners[a[0].Int()]
 			if r == nil || r.ctl == nil {
